@@ -435,6 +435,7 @@ def main(argv):
 def _main(prop, cfg, tier, seed, args, scratch, t0):
     broken = []       # (what, detail) — proof obligations / correspondences that no longer check
     notes = []
+    wait_notes = []
     theorems, axioms = [], {}
     harness = None
     with BuildLock():
@@ -580,6 +581,10 @@ def _main(prop, cfg, tier, seed, args, scratch, t0):
                     for k, v in (st.get("counters") or {}).items():
                         counters["%s.%s" % (suite["name"], k)] = counters.get("%s.%s" % (suite["name"], k), 0) + v
                     exhaustive = exhaustive and bool(st.get("exhaustive"))
+                    for n in st.get("notes") or []:
+                        # why a settle wait lapsed, with the stall the harness measured while waiting
+                        if str(n).startswith("sync:") and len(wait_notes) < 6:
+                            wait_notes.append("[%s, seed=%d] %s" % (skey(suite), sd, n))
                     handle(suite, res, "seed=%d" % sd)
 
     # ---- suites that run real goroutines, HTTP and timers: a failure must reproduce ------------------
@@ -594,13 +599,23 @@ def _main(prop, cfg, tier, seed, args, scratch, t0):
             p = os.path.join(scratch, "confirm-%d.txt" % len(unconfirmed))
             with open(p, "w") as f:
                 f.write("\n".join(ops) + "\n")
-            for attempt in range(2):
+            # it must show in two of up to three replays: one replay that fails again can be the same
+            # stall of the machine that made the generated run fail (this happened once, C13, DESIGN 11.4)
+            seen = 0
+            for attempt in range(3):
                 r = run_suite(harness, suite, 0, "quick", os.path.join(scratch, "confirm%d" % attempt), replay=p)
+                for n in (r.stats or {}).get("notes") or []:
+                    if str(n).startswith("sync:") and len(wait_notes) < 6:
+                        wait_notes.append("[%s, confirming replay] %s" % (skey(suite), n))
                 if kind == "model":
                     if r.model_div is not None or r.errors:
-                        return True
+                        seen += 1
                 elif r.spec_fails or r.spec_div is not None or r.oracle_failures:
+                    seen += 1
+                if seen >= 2:
                     return True
+                if attempt == 1 and seen == 0:
+                    return False
             return False
         kept = []
         for v in violations:
@@ -629,7 +644,9 @@ def _main(prop, cfg, tier, seed, args, scratch, t0):
             keptb.append(b)
         broken[:] = keptb
         for u in unconfirmed:
-            notes.append("unconfirmed (did not reproduce in two replays of the case, timing under load): " + u)
+            notes.append("unconfirmed (did not show again in two of up to three replays of the case, timing under load): " + u)
+    for n in wait_notes:
+        notes.append("settle wait lapsed " + n)
 
     # ---- tie broken but no concrete failing input yet: widen the search (spec on implementation only) ----
     if broken and not violations and harness is not None and not args.replay:
